@@ -80,3 +80,9 @@ func vclockAdvance(d time.Duration) {
 		t.f()
 	}
 }
+
+// exported handles on the fake clock for harnesses of other packages (the head-exchange marshaler
+// of the root package reads rotation values through a RotationInterval)
+func VClockSet(t time.Time)          { vclockSet(t) }
+func VClockAdvance(d time.Duration)  { vclockAdvance(d) }
+func VClockNow() time.Time           { return vclockNow() }
